@@ -97,6 +97,14 @@ func try(f func()) (p string) {
 	return ""
 }
 
+var otherEnc = func() []byte {
+	b, _, err := wkbref.Encode(otherGeom, func(int) bool { return true })
+	if err != nil {
+		panic(err)
+	}
+	return b
+}()
+
 // check returns (symptom, detail) or "".
 func check(c Case) (string, string) {
 	g := build(c)
@@ -147,6 +155,12 @@ func check(c Case) (string, string) {
 	}
 	if d := geomgen.Diff(g, got, true); d != "" {
 		return "roundtrip-differs", d
+	}
+	// the geometry decoded earlier must survive a later Decode call (history)
+	if p := try(func() { wkb.Decode(otherEnc) }); p == "" {
+		if d := geomgen.Diff(g, got, true); d != "" {
+			return "decoded-geometry-changed-by-later-Decode", d
+		}
 	}
 	// the bytes returned earlier must survive a later Encode call (history)
 	saved := append([]byte{}, enc...)
